@@ -15,6 +15,7 @@ import WV.Model.C03
 import WV.Model.C16
 import WV.Model.Observer
 import WV.Model.C17
+import WV.Model.C11
 
 /-! Line-protocol driver over the executable models.  First stdin line names the model
     (`C12`, …); every following line is one operation; one output line per operation. -/
@@ -44,6 +45,7 @@ def dispatch (which : String) (lines : List String) : List String :=
   | "C16" => WV.C16.driver lines
   | "OBSERVER" => WV.Observer.driver lines
   | "C17" => WV.C17.driver lines
+  | "C11" => WV.C11.driver lines
   | _ => ["unknown-model " ++ which]
 
 def main : IO Unit := do
